@@ -63,8 +63,32 @@ def _loop(env, a, X, lab, b, seed, sym, inputs=None, K=2, oracle=None):
     return cycles
 
 
+class ASubSamplingFraction(pl.AUncertainty):
+    """SubSamplingWrapper with a fractional max_candidates around UncertaintySampling: the documented sub-sample size
+    ceil(max_candidates * #candidates) never drops to zero while candidates are left"""
+
+    def __init__(self):
+        super().__init__("least_confident")
+        self.name = "SubSamplingWrapper[max_candidates=0.5]"
+        self.batches = [1]     # (a batch larger than the sub-sample is clipped to it: documented, not part of this property)
+        self.units = ["skactiveml.pool._wrapper:SubSamplingWrapper.query"]
+
+    def make(self, seed, sym=True, inputs=None, **kw):
+        P = pl.pool()
+        inner = P.UncertaintySampling(method="least_confident", random_state=seed)
+        return P.SubSamplingWrapper(query_strategy=inner, max_candidates=0.5, random_state=seed)
+
+    def call(self, qs, s, b, sym, table=None, return_utilities=True):
+        return qs.query(s.X, s.y, clf=self.clf(sym, table, s.K), fit_clf=False, candidates=s.cand, batch_size=b,
+                        return_utilities=return_utilities)
+
+
+LOOP_ADAPTERS = dict(pl.ADAPTERS)
+LOOP_ADAPTERS["SubSamplingWrapper[max_candidates=0.5]"] = ASubSamplingFraction()
+
+
 def sym(c, strat, n, b):
-    a = pl.ADAPTERS[strat]
+    a = LOOP_ADAPTERS[strat]
     xs = [core.fresh_float(f"x{i}") for i in range(n)]
     X = arrays.SymNd(arrays._to_obj(xs), float).reshape(n, 1)
     rec(c, "X", X)
@@ -80,7 +104,7 @@ def sym(c, strat, n, b):
 
 
 def replay(inputs, label, strat, n, b):
-    a = pl.ADAPTERS[strat]
+    a = LOOP_ADAPTERS[strat]
     X = np.array(inputs["X"], dtype=float).reshape(n, 1)
     lab = [int(v) for v in inputs["labeled"]]
     tables = [inputs] + ([dict(inputs, __clf__=[])] if a.needs_clf else [])
@@ -96,7 +120,7 @@ def replay(inputs, label, strat, n, b):
 
 
 def validate(inputs, strat, n, b):
-    a = pl.ADAPTERS[strat]
+    a = LOOP_ADAPTERS[strat]
     X = np.array(inputs["X"], dtype=float).reshape(n, 1)
     lab = [int(v) for v in inputs["labeled"]]
     env = pl.Env()
@@ -106,10 +130,10 @@ def validate(inputs, strat, n, b):
 
 def _cfg_for(name):
     def cfg(tier):
-        a = pl.ADAPTERS[name]
+        a = LOOP_ADAPTERS[name]
         out = []
         for n in (([3] if tier == "quick" else [3, 4]) if not getattr(a, "n", None) else [a.n]):
-            for b in [1, 2, 3]:
+            for b in getattr(a, "batches", [1, 2, 3]):
                 if getattr(a, "slow", False) and (n > 3 or tier == "quick" and b > 2):
                     continue
                 if name.startswith("QueryByCommittee[v") and (b == 1 or n > 3):
@@ -123,7 +147,7 @@ def _cfg_for(name):
 
 HARNESSES = [Harness(f"loop[{name}]", sym, replay, _cfg_for(name), pl.BASE_UNITS + a.units,
                      product_abstraction=a.product_abstraction, required_witnesses=("two_cycles", "cold_start"))
-             for name, a in pl.ADAPTERS.items()]
+             for name, a in LOOP_ADAPTERS.items()]
 for _h in HARNESSES:
     _h.validate = validate
 BOUNDS = dict(quick="pools of n = 3 samples, every initial labeling (0..n-1 labels), batch sizes 1-3, the whole loop until "
